@@ -247,18 +247,24 @@ def validate_traces(module, cfg_text, traces, chunk=20000, **kw):
                 'trace validation of %s: TLC found %d states, the verdicts '
                 'account for %d (a trace stopped without a named clause)\n%s'
                 % (module, r.distinct, expected, r.tail(30)))
-        infos = {}
+        infos, ids = {}, {}
         for pr in r.prints:
             if isinstance(pr, list) and len(pr) > 1 and pr[0] == 'INFO':
                 infos[pr[1]] = infos.get(pr[1], 0) + 1
+                if len(pr) > 2:
+                    ids.setdefault(pr[1], set()).add(pr[2])
         r.infos = infos
+        r.info_ids = ids
         return rej, r
 
     stats['info'] = {}
+    stats['info_ids'] = {}
     with ThreadPoolExecutor(jobs) as ex:
         for rej, r in ex.map(one, list(chunks(traces, chunk))):
             for k, v in r.infos.items():
                 stats['info'][k] = stats['info'].get(k, 0) + v
+            for k, v in r.info_ids.items():
+                stats['info_ids'].setdefault(k, set()).update(v)
             for k, v in rej.items():
                 rejects[k] = min(v, key=lambda x: x[1])
             stats['distinct'] += r.distinct
